@@ -63,10 +63,12 @@ def fieldKnown (s : St) (qlo qhi : Int) : Bool := (needed s qlo qhi).any fun sh 
 
 /-- the plan the property demands: the field types of every needed shard can be learned, and
 (when there is anything to read) every needed shard is read from exactly one node that can
-serve it completely -/
-def planOK (s : St) (c : Nat) (qlo qhi : Int) : Bool :=
+serve it completely. `always`: the statement builds its iterators whatever the field's type
+(`count` does: it counts values of any type, so it asks every shard even for a field nobody
+has); the others ask nobody when no needed shard knows the field. -/
+def planOK (s : St) (c : Nat) (qlo qhi : Int) (always : Bool := false) : Bool :=
   (needed s qlo qhi).all (metaOK s c) &&
-    (!fieldKnown s qlo qhi || (needed s qlo qhi).all (servable s c))
+    (!(always || fieldKnown s qlo qhi) || (needed s qlo qhi).all (servable s c))
 
 /-- the logical data the query ranges over: each needed shard once -/
 def unionPts (s : St) (qlo qhi : Int) : List Pt :=
